@@ -61,7 +61,27 @@ Dec3Text(m) ==
       fr == a % 1000
   IN (IF m < 0 THEN "-" ELSE "") \o ToString(a \div 1000) \o "."
      \o (IF fr < 10 THEN "00" ELSE IF fr < 100 THEN "0" ELSE "") \o ToString(fr)
-TextOf(kind, v) == IF kind = "int" THEN IntText(v) ELSE IF kind = "dec3" THEN Dec3Text(v) ELSE v
+(* extension (GRO column widths): kinds "d3" / "d4" = fixed-point numbers with three / four decimals carried as integer
+   thousandths / ten-thousandths, for fields of ANY width up to 13 (the kind "dec3" above stays limited to 10 columns) *)
+RECURSIVE Pow10(_)
+Pow10(n) == IF n = 0 THEN 1 ELSE 10 * Pow10(n - 1)
+DecText(m, nd) ==
+  LET a == Abs(m)
+      p == Pow10(nd)
+      frt == ToString(a % p)
+  IN (IF m < 0 THEN "-" ELSE "") \o ToString(a \div p) \o "." \o SubSeq("0000", 1, nd - Len(frt)) \o frt
+ParseDecN(s, nd) ==
+  LET n == Len(s) IN
+  IF n < nd + 2 \/ n > 13 \/ Ch(s, n - nd) # "." THEN BAD
+  ELSE LET neg == Ch(s, 1) = "-"
+           ips == SubSeq(s, IF neg THEN 2 ELSE 1, n - nd - 1)
+           ip  == IF Len(ips) = 0 \/ Len(ips) > 9 THEN BAD ELSE NatOf(ips, 0)
+           fp  == NatOf(SubSeq(s, n - nd + 1, n), 0)
+           cap == (2147483647 \div Pow10(nd)) - 1           \* everything stays a 32-bit integer
+       IN IF ip = BAD \/ fp = BAD \/ ip > cap THEN BAD
+          ELSE IF neg THEN -(ip * Pow10(nd) + fp) ELSE ip * Pow10(nd) + fp
+TextOf(kind, v) == IF kind = "int" THEN IntText(v) ELSE IF kind = "dec3" THEN Dec3Text(v)
+                   ELSE IF kind = "d3" THEN DecText(v, 3) ELSE IF kind = "d4" THEN DecText(v, 4) ELSE v
 
 (* ---- one field: pad, then truncate, to exactly w columns (operational: shaped like TruncFormatter) ---- *)
 Pad(txt, w, align) == IF Len(txt) >= w THEN txt
@@ -82,7 +102,8 @@ Render(table, rec) == RenderFrom(table, rec, 1, "")
 
 TypedSlice(f, line) ==
   LET s == Strip(Cut(line, f.start, f.start + f.w - 1)) IN
-  IF f.kind = "int" THEN ParseInt(s) ELSE IF f.kind = "dec3" THEN ParseDec3(s) ELSE s
+  IF f.kind = "int" THEN ParseInt(s) ELSE IF f.kind = "dec3" THEN ParseDec3(s)
+  ELSE IF f.kind = "d3" THEN ParseDecN(s, 3) ELSE IF f.kind = "d4" THEN ParseDecN(s, 4) ELSE s
 Read(table, line) == [i \in DOMAIN table |-> TypedSlice(table[i], line)]     \* sequence parallel to the table
 FieldIdx(table, name) == CHOOSE i \in DOMAIN table : table[i].name = name
 
@@ -108,6 +129,40 @@ GroAtomW == << F("resid", 1, 5, ">", "int"),   F("resname", 6, 5, "<", "str"), F
                F("serial", 16, 5, ">", "int"), F("x", 21, 8, ">", "dec3"),     F("y", 29, 8, ">", "dec3"),
                F("z", 37, 8, ">", "dec3") >>
 GroAtomR == GroAtomW
+
+(* GRO with coordinate columns of width w (write_gro precision = w - 1): three coordinate fields of width w with three
+   decimals from column 21, then - when the file has velocities - three velocity fields of the SAME width with four
+   decimals.  GroAtomWP(8) is GroAtomW. *)
+GroHeadW == << F("resid", 1, 5, ">", "int"),   F("resname", 6, 5, "<", "str"), F("name", 11, 5, ">", "str"),
+               F("serial", 16, 5, ">", "int") >>
+GroAtomWP(w) == GroHeadW \o << F("x", 21, w, ">", "d3"), F("y", 21 + w, w, ">", "d3"), F("z", 21 + 2 * w, w, ">", "d3") >>
+GroVelWP(w) == << F("vx", 21 + 3 * w, w, ">", "d4"), F("vy", 21 + 4 * w, w, ">", "d4"), F("vz", 21 + 5 * w, w, ">", "d4") >>
+GroAtomWPV(w, vel) == IF vel THEN GroAtomWP(w) \o GroVelWP(w) ELSE GroAtomWP(w)
+GroLineLen(w, vel) == 20 + (IF vel THEN 6 ELSE 3) * w
+(* what the text itself says about its layout: the coordinate width is the distance between the decimal points of two
+   neighbouring coordinate fields, a line with six decimal points carries velocities (names contain no ".") *)
+DotCols(line) == {i \in 21..Len(line) : Ch(line, i) = "."}
+DotWidth(line) == LET d == DotCols(line) IN
+                  IF Cardinality(d) < 2 THEN 0
+                  ELSE LET a == CHOOSE x \in d : \A y \in d : x <= y
+                           b == CHOOSE x \in d \ {a} : \A y \in d \ {a} : x <= y
+                       IN b - a
+HasVel(line) == Cardinality({i \in 1..Len(line) : Ch(line, i) = "."}) = 6
+(* largest / smallest value (integer thousandths or ten-thousandths alike) whose text fits w columns *)
+MaxFit(w) == IF w > 10 THEN 2147483647 ELSE Pow10(w - 1) - 1           \* capped: values are 32-bit integers here
+MinFit(w) == IF w > 11 THEN -2147483647 ELSE -(Pow10(w - 2) - 1)
+
+(* reader side of a PDB file NOT written by vermouth: PdbAtomR plus alternate location, element and charge columns *)
+PdbAtomRF == PdbAtomR \o << F("altloc", 17, 1, "<", "str"), F("elem", 77, 2, "<", "str"), F("charge", 79, 2, "<", "str") >>
+(* charge column: digit then sign ("2-", "1+"), also sign then digit; blank = 0 *)
+ParseCharge(s) ==
+  IF s = "" THEN 0
+  ELSE IF Len(s) = 2 /\ Ch(s, 1) \in Digits /\ Ch(s, 2) \in {"+", "-"} THEN (IF Ch(s, 2) = "-" THEN -DigitVal[Ch(s, 1)] ELSE DigitVal[Ch(s, 1)])
+  ELSE IF Len(s) = 2 /\ Ch(s, 2) \in Digits /\ Ch(s, 1) \in {"+", "-"} THEN (IF Ch(s, 1) = "-" THEN -DigitVal[Ch(s, 2)] ELSE DigitVal[Ch(s, 2)])
+  ELSE IF Len(s) = 1 /\ Ch(s, 1) \in Digits THEN DigitVal[Ch(s, 1)]
+  ELSE BAD
+(* number of blank-separated tokens of a line (GRO box line) *)
+Tokens(s) == Cardinality({i \in 1..Len(s) : Ch(s, i) # " " /\ (i = 1 \/ Ch(s, i - 1) = " ")})
 
 (* the property leaves open which end of an over-long text survives in a right-aligned TEXT column (GRO atom name):
    both the leading and the trailing w characters are admissible there.  Everywhere else the table decides. *)
